@@ -12,6 +12,7 @@ import (
 	"os"
 	"os/exec"
 	"path/filepath"
+	"runtime"
 	"strconv"
 	"strings"
 
@@ -150,6 +151,21 @@ func run(seed int64, n int, dir string, _ []string) {
 	bin := os.Getenv("VERIF_CSVQ")
 
 	for h := 0; h < n; h++ {
+		oneHistory(g, o, scratch, bin, h)
+	}
+}
+
+// oneHistory runs one generated history; a Go panic raised inside csvq while executing a statement
+// in-process is an internal failure of the implementation and is reported as such.
+func oneHistory(g *hc.Gen, o *hc.Out, scratch, bin string, h int) {
+	defer func() {
+		if p := recover(); p != nil {
+			buf := make([]byte, 4096)
+			buf = buf[:runtime.Stack(buf, false)]
+			o.Law("internal_panic", map[string]interface{}{"history": h, "panic": fmt.Sprint(p), "stack": string(buf)})
+		}
+	}()
+	{
 		d := filepath.Join(scratch, fmt.Sprintf("c01-%d", h))
 		_ = os.RemoveAll(d)
 		_ = os.MkdirAll(d, 0o755)
@@ -282,7 +298,7 @@ func run(seed int64, n int, dir string, _ []string) {
 			program = append(program, op{line: line, sql: sql, kind: got})
 		}
 		// the way the run ends
-		how := g.Pick("normal", "normal", "error", "exit", "interrupt")
+		how := g.Pick("normal", "normal", "error", "exit", "interrupt", "interrupt")
 		if how == "normal" {
 			if err := pr.P.AutoCommit(pr.Ctx); err != nil {
 				o.Law("autocommit_error", err.Error())
@@ -334,13 +350,24 @@ func run(seed int64, n int, dir string, _ []string) {
 					break
 				}
 			}
+			interruptCommit := how == "interrupt" && g.Intn(2) == 0
+			if interruptCommit {
+				// the signal arrives inside a final COMMIT, while the first table is being encoded: the
+				// interrupted commit must publish nothing (every file as before that COMMIT)
+				how = "interrupt-in-commit"
+			}
 			switch how {
+			case "interrupt-in-commit":
+				text.WriteString("COMMIT;")
 			case "error":
 				text.WriteString("SELECT 1 / 0;") // (unreached if a statement above already failed)
 			case "exit":
 				text.WriteString("EXIT;")
 			}
 			env := os.Environ()
+			if how == "interrupt-in-commit" {
+				env = append(env, "VERIF_SIGNAL_AT=tx.commit.encode#1:"+g.Pick("SIGINT", "SIGTERM"))
+			}
 			if how == "interrupt" {
 				// a first run lists the points; the signal is then delivered at the first file access:
 				// the transaction has published nothing, so every file must keep its initial bytes
@@ -366,7 +393,7 @@ func run(seed int64, n int, dir string, _ []string) {
 					_ = os.RemoveAll(d2)
 					pr.Close()
 					_ = os.RemoveAll(d)
-					continue
+					return
 				}
 				env = append(env, "VERIF_SIGNAL_AT="+pts[0]+"#1:"+g.Pick("SIGINT", "SIGTERM", "SIGQUIT"))
 				lines = lines[:1]
@@ -384,7 +411,13 @@ func run(seed int64, n int, dir string, _ []string) {
 			for _, l := range lines {
 				o.Case(strings.Replace(l, "c01.", "c01.q", 1), "-")
 			}
+			if how == "interrupt-in-commit" {
+				how = "interrupt"
+			}
 			o.Case("c01.qend "+how, diskState(d2, tr2))
+			if interruptCommit {
+				o.Count("process_runs:interrupt-in-commit")
+			}
 			o.Count("process_runs:" + how)
 			_ = os.RemoveAll(d2)
 		}
